@@ -70,6 +70,7 @@ class Run:
             o = Obligation(od["name"], "verus", "complete", None, od.get("functions", []), od.get("desc", ""), od.get("twin"))
             o.vfn = od["vfn"]
             o.known = od.get("known")
+            o.soft = od.get("soft", False)
             obs.append(o)
             self.obs.append(o)
             self.functions += od.get("functions", [])
@@ -418,7 +419,9 @@ class Run:
                 # Verus failure is a lost proof (e.g. a construct without a vstd specification): undecided, not a violation.
                 twins = [t for t in (o.twin or [])]
                 by_name = {x.name: x for x in self.obs}
-                if twins and all(t in by_name and by_name[t].engine == "kani" and by_name[t].kind == "complete"
+                # `soft` obligations pin one of many admissible implementations as a proof device (e.g. the exact hash layout
+                # behind "equal values hash equally"); for them a discharged twin that checks the law itself suffices, even bounded
+                if twins and all(t in by_name and by_name[t].engine == "kani" and (by_name[t].kind == "complete" or getattr(o, "soft", False))
                                  and by_name[t].status == "discharged" for t in twins):
                     o.status = "undecided"
                     o.detail = "Verus proof lost, but the complete Kani twin(s) %s discharge the same statement on this tree: %s" % (
